@@ -51,25 +51,6 @@ let parse_tree (s : string) : Walk.node =
   in
   node ()
 
-let rec lookup (n : Walk.node) (p : coq_N list list) : Walk.node =
-  match p with
-  | [] -> n
-  | c :: p' -> (
-      match n with
-      | Walk.NDir kids -> (
-          match L.find_opt (fun (k, _) -> k = c) kids with
-          | Some (_, k) -> lookup k p'
-          | None -> Walk.NErr)
-      | _ -> Walk.NErr)
-
-let split_components (s : coq_N list) : coq_N list list =
-  let sep = Base.coq_SEP in
-  let rec go cur acc = function
-    | [] -> L.rev (if cur = [] then acc else L.rev cur :: acc)
-    | c :: r -> if c = sep then go [] (if cur = [] then acc else L.rev cur :: acc) r else go (c :: cur) acc r
-  in
-  go [] [] s
-
 (* ---- layers ------------------------------------------------------------------------------------------ *)
 type layer_kind = KGlob | KNot | KFilter
 
@@ -92,7 +73,9 @@ let cmd_walk (has_casing : coq_N -> bool) (args : string list) : string =
         let root = parse_tree tree in
         let mind = match int_of_string_opt mind with Some m -> m | None -> 0 in
         let maxd = int_of_string_opt maxd in
-        let glob_walk, prefix, root, first, pivot =
+        (* the prefix components, the directory the walk starts at and the translated depth window are the model's
+           (Walk.split_components, Walk.glob_walk_root, Walk.window_at_pivot inside Walk.glob_walk) *)
+        let glob_walk, prefix, prefix_text, first_layer =
           if mode.[0] = 'G' then begin
             let t = build_tree (String.sub mode 1 (String.length mode - 1)) in
             let prefix_text =
@@ -100,23 +83,16 @@ let cmd_walk (has_casing : coq_N -> bool) (args : string list) : string =
               | Base.Ok (_, s) -> s
               | Base.Panic _ -> raise (Bad "panic")
             in
-            let prefix = split_components prefix_text in
+            let prefix = Walk.split_components prefix_text in
             let progs = if Token.tok_is_empty t then [] else Query.component_programs t in
             let progs = L.map (fun r -> fun (c : coq_N list) -> !full_match r c) progs in
             let complete_re = Encode.encode t in
             let complete = fun s -> !full_match complete_re s in
-            (* the walk root is the directory given joined with the prefix text: with a trailing separator the
-               operating system refuses anything that is not a directory *)
-            let ends_sep = match L.rev prefix_text with c :: _ -> c = Base.coq_SEP | [] -> false in
-            let sub = lookup root prefix in
-            let sub = match sub with Walk.NFile when ends_sep && prefix <> [] -> Walk.NErr | n -> n in
-            (true, prefix, sub, [ (KGlob, Walk.glob_layer prefix progs complete) ], L.length prefix)
+            (true, prefix, prefix_text, Some (progs, complete))
           end
-          else (false, [], root, [], 0)
+          else (false, [], [], None)
         in
-        (* depth behaviours are relative to the directory given to the walk: saturating subtraction of the pivot *)
-        let mind = max 0 (mind - pivot) in
-        let maxd = match maxd with Some m -> Some (max 0 (m - pivot)) | None -> None in
+        let pivot = L.length prefix in
         let rest =
           L.map
             (fun l ->
@@ -151,9 +127,14 @@ let cmd_walk (has_casing : coq_N -> bool) (args : string list) : string =
                   (KFilter, Walk.table_layer prefix glob_walk tbl))
             layers
         in
-        let all = first @ rest in
-        let ls = L.map snd all in
-        let items = Walk.walk (!nat_of_int mind) (match maxd with Some m -> Some (!nat_of_int m) | None -> None) ls root in
+        let maxn = match maxd with Some m -> Some (!nat_of_int m) | None -> None in
+        let all, items =
+          match first_layer with
+          | Some (progs, complete) ->
+              ((KGlob, Walk.glob_layer prefix progs complete) :: rest,
+               Walk.glob_walk root prefix_text (!nat_of_int mind) maxn progs complete (L.map snd rest))
+          | None -> (rest, Walk.walk (!nat_of_int mind) maxn (L.map snd rest) root)
+        in
         let path_hex p = !hex (!of_str (Walk.join_path (prefix @ p))) in
         let tag_text = function Walk.Filtrate -> "F" | Walk.RNode -> "N" | Walk.RTree -> "T" in
         let yields =
